@@ -19,7 +19,7 @@ Lemmas/TDmlQI.lean proves `TDM.FragStmt ⊆ TDM2.FragStmt` with equal renderings
 * `DROP TABLE [IF EXISTS] t`, `TRUNCATE TABLE t`, `MSCK REPAIR TABLE t` (`t` plain or schema-qualified: `TDM.tblOKD`), `USE s` (any raw
   string), `SHOW DATABASES`, `SHOW TABLES`;
 * `SET k=v`: `k` and `v` configuration strings — words joined by `.` and `-` (`hive.exec.dynamic.partition`), or ONE token of any
-  other shape (a quoted string, a number) — `TR.cfgOK`: the parser's concatenation of the pieces is the stored string;
+  other shape (a quoted string, a decimal number) — `TR.cfgOK`: the parser's concatenation of the pieces is the stored string;
 * `ANALYZE TABLE t [PARTITION (…)] COMPUTE STATISTICS [FOR COLUMNS] [CACHE METADATA] [NOSCAN]` for HIVE (every combination of the
   three flags); for the other dialects the bare `ANALYZE TABLE t` the MySQL printer writes — partition and flags must be unset, the
   MySQL rendering does not state them (see the note on the information loss at the end);
@@ -265,6 +265,7 @@ def us2 : Stmt := .use "`my db`"
 def st1 : Stmt := .set ⟨"hive.exec.dynamic-partition.mode", "nonstrict"⟩
 def st2 : Stmt := .set ⟨"a", "'x.y'"⟩
 def st3 : Stmt := .set ⟨"mapred.job.name", "a-b.c"⟩
+def st4 : Stmt := .set ⟨"hive.map.aggr.hash.percentmemory", "0.5"⟩
 def an1 : Stmt := .analyze (tn "t") (some [eqp "dt" "'1'"]) true true true
 def an2 : Stmt := .analyze (tn "t") none false false false
 def an3 : Stmt := .analyze (tn "t" (some "s")) (some [col "dt"]) false false true
@@ -276,8 +277,8 @@ def ca2 : Stmt := .createTableAs (tn "t") q3
 /-- `CREATE TABLE t AS WITH x AS (…), y AS (…) SELECT … UNION ALL SELECT …` -/
 def ca3 : Stmt := match C03.Dml.w1 with | .select q => .createTableAs (tn "t") q | s => s
 -- every new class in MYSQL and HIVE
-#guard [a1, a3, dr1, dr2, tr1, ms1, us1, us2, st1, st2, st3, an2, sc1, sc2, ca1, ca2, ca3, .showDatabases, .showTables].all (agreesAny .MYSQL) &&
-  [a2, a3, dr1, dr2, tr1, ms1, us1, us2, st1, st2, st3, an1, an2, an3, an4, sc1, sc2, ca1, ca2, ca3, .showDatabases, .showTables].all (agreesAny .HIVE)
+#guard [a1, a3, dr1, dr2, tr1, ms1, us1, us2, st1, st2, st3, st4, an2, sc1, sc2, ca1, ca2, ca3, .showDatabases, .showTables].all (agreesAny .MYSQL) &&
+  [a2, a3, dr1, dr2, tr1, ms1, us1, us2, st1, st2, st3, st4, an1, an2, an3, an4, sc1, sc2, ca1, ca2, ca3, .showDatabases, .showTables].all (agreesAny .HIVE)
 #guard [a1, a2, a3, dr1, dr2, tr1, ms1, us1, us2, st1, st2, st3, an2, sc1, sc2, ca1, ca2, .showDatabases, .showTables].all (roundTripsAny .MYSQL) &&
   [a2, a3, dr1, dr2, tr1, ms1, us1, us2, st1, st2, st3, an1, an2, an3, an4, sc1, sc2, ca1, ca2, ca3, .showDatabases, .showTables].all (roundTripsAny .HIVE) &&
   [a2, dr1, st1, an2, sc1, ca1].all (roundTripsAny .ORACLE)
@@ -313,7 +314,7 @@ def l6 : Stmt := .createTableAs (tn "t") (match l4 with | .select q => q | _ => 
 -- whose kind has no name where one is needed, a configuration string the parser would rebuild differently
 #guard !FragAny .MYSQL (.alter (tn "t") []) && !FragAny .HIVE (.alter (tn "t") [.addPartition false [eqp "dt" "1", col "hr"]]) &&
   !FragAny .MYSQL an1 && FragAny .HIVE an1 && !FragAny .MYSQL (.alter (tn "t") [.add (.idx ⟨.normal, none, [⟨"a", none⟩], none, none, none⟩)])
-#guard cfgOK "hive.exec-x" && cfgOK "'a.b'" && cfgOK "1.5" && eqbL (toksCfg "1.5") [TD.srcTok "1.5"] && (toksCfg "a.b-c").length == 5
+#guard cfgOK "hive.exec-x" && cfgOK "'a.b'" && cfgOK "1.5" && eqbL (toksCfg "1.5") [cfgTok "1.5"] && (toksCfg "a.b-c").length == 5
 
 /-! **information loss of the MySQL rendering of ANALYZE TABLE (C01; on the real code).**  `ANALYZE TABLE t CACHE METADATA` (also with
 `PARTITION (…)`, `FOR COLUMNS`, `NOSCAN`) parses to a statement with the flag set; `source(SQLType.MYSQL)` prints `` ANALYZE TABLE `t` ``,
